@@ -647,37 +647,7 @@ func ruleObservationalCollapse(c *Check, rule string) {
 			}
 			c.Sites++
 			v := ci.Value()
-			ok := true
-			var why []string
-			for _, r := range *v.Referrers() {
-				switch y := r.(type) {
-				case *ssa.BinOp:
-					// any spelling of the sign test: v >= 0, v > -1, 0 <= v, v < 0, ...
-					geq, k, isH := signedHalfLine(y, v)
-					if !(isH && ((geq && k == 0) || (!geq && k == -1))) {
-						ok = false
-						why = append(why, "result compared as "+shortVal(y))
-					}
-				case *ssa.Return:
-					// returned only on the >= 0 edge
-					good := false
-					for _, l := range guardsOf(y.Block()) {
-						if b, isB := l.Cond.(*ssa.BinOp); isB {
-							if geq, k, isH := signedHalfLine(b, v); isH && ((geq && k == 0 && l.Val) || (!geq && k == -1 && !l.Val)) {
-								good = true
-							}
-						}
-					}
-					if !good || y.Results[0] != v || !isNilConst(y.Results[1]) {
-						ok = false
-						why = append(why, "result returned outside the di >= 0 branch or altered")
-					}
-				case *ssa.DebugRef:
-				default:
-					ok = false
-					why = append(why, "result used by "+r.String())
-				}
-			}
+			ok, why := signOnlyMapping(p, fn, v)
 			c.Cond(ok, rule, "UncompressBlock#sign-only", p.InstrPos(ci), "UncompressBlock looks only at the sign of the decoder's result: non-negative results are returned unchanged with a nil error, every negative result becomes the same error (so different error codes of the two decoders cannot be observed)", "uses: `>= 0` test and return on the true edge", strings.Join(why, "; "))
 			// every other return yields (0, ErrInvalidSourceShortBuffer) or (0,nil) under len(src)==0
 		}
@@ -799,4 +769,141 @@ func signedHalfLine(b *ssa.BinOp, v ssa.Value) (geq bool, k int64, ok bool) {
 		return false, kk - 1, true
 	}
 	return false, 0, false
+}
+
+
+// signOnlyMapping decides, path by path, how fn turns the decoder's result v
+// into its own results: on every path through the call, v is classified by a
+// sign test and by nothing else; where v >= 0 the first result is v itself and
+// the error nil; where v < 0 the error is definitely non-nil. Phis (named
+// results assigned in branches) are resolved by the edges of the path.
+func signOnlyMapping(p *Program, fn *ssa.Function, v ssa.Value) (bool, []string) {
+	call := v.(ssa.Instruction)
+	var why []string
+	seenWhy := map[string]bool{}
+	add := func(s string) {
+		if !seenWhy[s] {
+			seenWhy[s] = true
+			why = append(why, s)
+		}
+	}
+	nPaths := 0
+	var path []*ssa.BasicBlock
+	onPath := map[*ssa.BasicBlock]bool{}
+	budget := 5000
+	resolve := func(x ssa.Value) ssa.Value {
+		for i := 0; i < 8; i++ {
+			ph, isPhi := x.(*ssa.Phi)
+			if !isPhi {
+				break
+			}
+			// the predecessor of the phi's block on this path
+			var sel ssa.Value
+			for k := 1; k < len(path); k++ {
+				if path[k] == ph.Block() {
+					for pi, pr := range ph.Block().Preds {
+						if pr == path[k-1] {
+							sel = ph.Edges[pi]
+						}
+					}
+				}
+			}
+			if sel == nil {
+				break
+			}
+			x = sel
+		}
+		return x
+	}
+	judge := func() {
+		// does the path pass the call?
+		passes := false
+		for _, b := range path {
+			if b == call.Block() {
+				passes = true
+			}
+		}
+		last := path[len(path)-1]
+		ret, isR := last.Instrs[len(last.Instrs)-1].(*ssa.Return)
+		if !passes || !isR || len(ret.Results) != 2 {
+			return
+		}
+		nPaths++
+		sign := 0 // +1: v >= 0 known, -1: v < 0 known
+		for k := 0; k+1 < len(path); k++ {
+			b := path[k]
+			ifi, isIf := b.Instrs[len(b.Instrs)-1].(*ssa.If)
+			if !isIf || len(b.Succs) != 2 {
+				continue
+			}
+			bo, isB := ifi.Cond.(*ssa.BinOp)
+			if !isB || (bo.X != v && bo.Y != v) {
+				continue
+			}
+			taken := b.Succs[0] == path[k+1]
+			geq, kk, isH := signedHalfLine(bo, v)
+			if !isH || !((geq && kk == 0) || (!geq && kk == -1)) {
+				add("the result is compared as " + shortVal(bo) + ", which is not a sign test")
+				continue
+			}
+			if (geq && kk == 0) == taken {
+				sign = 1
+			} else {
+				sign = -1
+			}
+		}
+		r0, r1 := resolve(ret.Results[0]), resolve(ret.Results[1])
+		switch sign {
+		case 1:
+			if r0 != v {
+				add("with a non-negative result the count returned is " + shortVal(r0) + ", not the decoder's result")
+			}
+			if !isNilConst(r1) {
+				add("with a non-negative result the error is not nil")
+			}
+		case -1:
+			if mayBeNilErr(r1, last) {
+				add("with a negative result the error returned may be nil")
+			}
+		default:
+			add("a return is reachable after the call without the sign of the result having been tested")
+		}
+	}
+	var walk func(b *ssa.BasicBlock)
+	walk = func(b *ssa.BasicBlock) {
+		if onPath[b] || budget <= 0 {
+			return
+		}
+		budget--
+		onPath[b] = true
+		path = append(path, b)
+		if len(b.Succs) == 0 {
+			judge()
+		}
+		for _, s := range b.Succs {
+			walk(s)
+		}
+		path = path[:len(path)-1]
+		delete(onPath, b)
+	}
+	if len(fn.Blocks) > 0 {
+		walk(fn.Blocks[0])
+	}
+	if nPaths == 0 {
+		add("no path through the decoder call reaches a return")
+	}
+	// any other use of the result (arithmetic, a call argument, a store) looks at more than the sign
+	for _, r := range *v.Referrers() {
+		switch y := r.(type) {
+		case *ssa.BinOp:
+			if _, _, isH := signedHalfLine(y, v); !isH {
+				add("result used in " + shortVal(y))
+			}
+		case *ssa.Return, *ssa.Phi, *ssa.DebugRef:
+		default:
+			add("result used by " + r.String())
+		}
+	}
+	_ = p
+	return len(why) == 0, why
 }
